@@ -59,3 +59,11 @@ EXTRACT ("C05", m33_fastMinor, "M33.fastMinor_01_12", { IN (Matrix33, a); c.outS
 EXTRACT ("C05", m33_fastMinorB, "M33.fastMinor_12_02", { IN (Matrix33, a); c.outS (a.fastMinor (1, 2, 0, 2)); })
 EXTRACT ("C05", m44_fastMinor, "M44.fastMinor_123_012", { IN (Matrix44, a); c.outS (a.fastMinor (1, 2, 3, 0, 1, 2)); })
 EXTRACT ("C05", m44_fastMinorB, "M44.fastMinor_013_123", { IN (Matrix44, a); c.outS (a.fastMinor (0, 1, 3, 1, 2, 3)); })
+// aliasing: the compound spellings with the object itself as right operand
+EXTRACT ("C05", q_mulSelf, "Quat.mulAssignSelf", { IN (Quat, a); a *= a; c.out (a); })
+EXTRACT ("C05", m22_mulSelf, "M22.mulAssignSelf", { IN (Matrix22, a); a *= a; c.out (a); })
+EXTRACT ("C05", m33_mulSelf, "M33.mulAssignSelf", { IN (Matrix33, a); a *= a; c.out (a); })
+EXTRACT ("C05", m44_mulSelf, "M44.mulAssignSelf", { IN (Matrix44, a); a *= a; c.out (a); })
+EXTRACT ("C05", v3_crossSelf, "V3.crossAssignSelf", { IN (Vec3, a); a %= a; c.out (a); })
+EXTRACT ("C05", m44_multiply3Alias, "M44.multiplyStatic3AliasA", { IN (Matrix44, a); IN (Matrix44, b); Matrix44<T>::multiply (a, b, a); c.out (a); })
+EXTRACT ("C05", m44_multiply3AliasB, "M44.multiplyStatic3AliasB", { IN (Matrix44, a); IN (Matrix44, b); Matrix44<T>::multiply (a, b, b); c.out (b); })
